@@ -1,5 +1,5 @@
 """C18 — virtual keys obey press / release / tap / toggle and their timed forms."""
-import re
+import re, random
 import gen
 from checks.common import trace_has_output
 
@@ -103,10 +103,55 @@ def gen_cases(rng, tier):
             h += ['m%d' % step] * ((D + 40) // step + 1) + ['q']
         cases.append({'id': 'c18-idle-%d' % i, 'cfg': cfg, 'hist': h, 'sub': 'ksim', 'idle': {'D': D, 'last': last, 'step': step},
                       'tags': {'kind': 'on-idle', 'D': D, 'loop_step_ms': step}})
+    # a virtual key operated while a chords-v2 key is waiting for its chord: the virtual key's own press and release reach the
+    # output at once, whatever the chord machinery is waiting for (deterministic shapes, own random stream)
+    for i in range(36 if tier == 'quick' else 360):
+        r2 = random.Random(5113 * i + (0 if tier == 'quick' else 700001))
+        T = [150, 200, 400][i % 3]
+        first = ['chord-key', 'vkey'][(i // 3) % 2]
+        gap = [1, 1, 2, 3, 10, 40][(i // 6) % 6]
+        cfg = ('(defcfg concurrent-tap-hold yes)\n(defsrc a s d f)\n(deflayer l0 a s d f)\n(defvirtualkeys v0 lsft)\n'
+               '(defchordsv2 (d f) z %d all-released ())' % T)
+        h = ['t100']
+        now = 100
+        exp = []
+        if first == 'chord-key':
+            h += ['d32'] + (['t%d' % g] if (g := r2.choice([0, 0, 4])) else [])
+            now += g
+            h += ['vp,1,0']; exp.append((now, 'd'))
+        else:
+            h += ['vp,1,0']; exp.append((now, 'd'))
+            g = r2.choice([1, 5])
+            h += ['t%d' % g, 'd32']; now += g
+        h += ['t%d' % gap]; now += gap
+        h += ['vr,1,0']; exp.append((now, 'u'))
+        h += ['t%d' % (T + 100), 'u32', 't50', 'q']
+        cases.append({'id': 'c18-pend-%d' % i, 'cfg': cfg, 'hist': h, 'sub': 'ksim', 'vkpend': exp,
+                      'tags': {'kind': 'vkey-while-chord-key-pending', 'first': first, 'gap': gap}})
     return cases
 
 
+def oracle_pending(c, it):
+    got = []
+    for l in it:
+        if l.startswith('@'):
+            tick = int(l.split(' ')[0][1:].rstrip('+'))
+            for e in l.split(' ')[1:]:
+                if e in ('d42', 'u42'):
+                    got.append((tick, e[0]))
+    exp = c['vkpend']
+    if [k for _, k in got] != [k for _, k in exp]:
+        return 'virtual key (lsft) operated at %s: its key did %s' % (exp, got)
+    for (te, k), (tg, _) in zip(exp, got):
+        if not (te <= tg <= te + 3):
+            return 'virtual key (lsft) %s requested at tick %d reached the output at tick %d (a chords-v2 key was waiting for its chord)' % (
+                'press' if k == 'd' else 'release', te, tg)
+    return None
+
+
 def oracle(c, it):
+    if 'vkpend' in c and it and not it[0].startswith('PARSE-') and not any(l.startswith(('PANIC', 'ABORT', 'HANG')) for l in it):
+        return oracle_pending(c, it)
     if 'idle' not in c or not it or it[0].startswith('PARSE-') or any(l.startswith(('PANIC', 'ABORT', 'HANG')) for l in it):
         return None
     D, last = c['idle']['D'], c['idle']['last']
